@@ -1,7 +1,6 @@
 """C12 configuration for ./check"""
 CONF = {
-    'coq_sample': 12,   # cases re-evaluated inside Coq by vm_compute against the extracted runner's output
-    'interesting': ['lookup-race-lost', 'both-directions-race', 'close-between-lookup-and-lock', 'recycle'],
+    'interesting': ['lookup-race-lost', 'both-directions-race', 'close-between-lookup-and-lock', 'recycle', 'flush-stale', 'retry', 'trailing-remove'],
     'rule': 'Cases = thread programs (2-3 assemblers, at most 7 calls each: packets of 1-3 flows x 2 directions built from '
             'SYN / 2-byte data segments / FIN at fixed offsets, dealt to the assemblers one-direction-per-assembler, at random, or with '
             'the last packet elsewhere; re-opened and extra flows so that closed objects are recycled; sometimes a FlushAll) x a '
@@ -11,7 +10,7 @@ CONF = {
             'schedule; after the schedule the lowest enabled thread runs, then an extra assembler calls FlushAll. Compared with the '
             'extracted model under the same schedule: every factory.New / Reassembled(SG) / ReassemblyComplete / panic with thread, '
             'stream number and the connection object whose lock is held, and the final pool (map entries, recycled free list). '
-            'Quick: corpus witnesses + 300 random cases. Thorough: 3000 random cases + ALL schedules (depth-first, stateless, at most '
+            'Calls are packets, FlushAll, or the age-based flush (tcpassembly FlushOlderThan / reassembly FlushCloseOlderThan, packets carry capture timestamps). Directed schedules for two narrow windows: close-between-snapshot-and-lock (a flusher takes its pool snapshot at every point of the closing assembler progress, the connection is closed by an in-order FIN or an End page while out-of-order pages are queued, then the flusher locks it) and lose-the-lookup-race-twice (every placement of the first three steps of a one-packet assembler among the steps of an assembler that opens and closes the same flow twice; also with a third assembler making the successor). Quick: corpus witnesses + ~1700 directed + 300 random cases. Thorough: 3000 random cases + ALL schedules (depth-first, stateless, at most '
             '6000 schedules per workload and package) of 4 two-assembler workloads + a free-running -race build (support run).',
     'shrink_keep_first': 1,
     'model_optional': True,
@@ -40,10 +39,10 @@ CONF = {
                    'satisfying machine_ok: C12_no_panic (tcpassembly; reassembly after the fix), C12_one_entry (one entry per key and '
                    'its reverse, map/free-list consistency), C12_mutex + C12_stream_owner_unique + C12_lock_owner (callbacks only in a '
                    'step that takes the free lock of the one object owning the stream), C12_progress (no deadlock; enabled threads '
-                   'step), C12_inorder_order (an assembler processes its packets in program order), C12_complete_once_partial (never twice); C12_lockset_without_recycling and C12_inorder_without_recycling prove the two refuted statements for the hypothetical configuration in which remove() does not recycle the object (so recycling is their only cause). Refuted on the faithful model with explicit schedules, each '
+                   'step), C12_inorder_order (an assembler processes its packets in program order), C12_complete_once_partial (never twice), C12_flush_skips_closed (tcpassembly: a flusher - FlushAll or the age-based FlushWithOptions - that locks a connection closed since its snapshot changes nothing); C12_lockset_without_recycling and C12_inorder_without_recycling prove the two refuted statements for the hypothetical configuration in which remove() does not recycle the object (so recycling is their only cause). Refuted on the faithful model with explicit schedules, each '
                    'replayed on the real code (corpus/C12): C12_no_panic_refuted (unchanged reassembly: FIXME panic, fixed), '
                    'C12_lockset_refuted_*, C12_inorder_refuted_* (stale pointer to a closed, recycled connection object: data reaches '
                    'the wrong stream, reset races with the reader), C12_complete_once_refuted_* (a recycled object that lost the insert '
-                   'race evicts the winner, whose stream is never completed) - known findings. PARTIAL: Go memory model, scheduler and '
+                   'race evicts the winner, whose stream is never completed), C12_flush_skips_closed_refuted_reassembly / C12_complete_once_refuted_reassembly_age_flush (reassembly FlushCloseOlderThan removes the connection a second time after unlocking and deletes the entry of a re-created connection) - known findings. For reassembly the theorems that rest on the pool invariant (one_entry, stream_owner_unique, complete_once_partial, *_without_recycling) carry the hypothesis trail_cfg g = false, i.e. flushers that do not perform that second remove (FlushAll). PARTIAL: Go memory model, scheduler and '
                    'race detector are outside the model.',
 }
